@@ -128,6 +128,8 @@ def leaf_variants(v, wide=False, hint=None, text=False):
         out.append(('set:empty', t()))
         for m in enum_members(e, wide):
             out.append(('set:only:%s' % m.name, t([m])))
+        # every member of a flag enumeration is a bit with a meaning of its own: each is toggled (no sampling)
+        for m in (ms if len(ms) <= 64 else enum_members(e, wide)):
             out.append(('set:toggle:%s' % m.name, t(set(v) ^ {m})))
         out.append(('set:all', t(ms)))
         return out
